@@ -187,9 +187,42 @@ fn gen_long(ctx: &GenCtx, i: u64) -> Option<Run> {
     Some(rb.finish())
 }
 
+/// public tokens: the message ends in LE64(0) followed by filler; the re-split moves that tail into a new
+/// footer (filler || LE64(0)).  With a sound length prefix the two encodings differ; with one that aliases
+/// lengths n and n + p they coincide and the untouched signature verifies content that was never signed.
+fn gen_crafted_resplit(ctx: &GenCtx, i: u64) -> Option<Run> {
+    let mut r = run_rng(ctx, "C03", i);
+    let proto = *r.pick(&[Proto::V4P, Proto::V2P, Proto::V4P, Proto::V1P, Proto::V3P]);
+    let mut rb = RunBuilder::new("C03", "corrupt-in-transit/crafted-resplit", ctx.verif_seed, i);
+    let now = gen_now(&mut r);
+    let key = rb.key(key_for(proto, &mut r));
+    for p in [128usize, 256, 64, 512, 65_536] {
+        if p > 512 && !r.chance(1, 4) {
+            continue;
+        }
+        let head = if r.chance(1, 2) { format!("{{\"sub\":\"admin\",\"n\":{}}}", r.below(1000)) } else { ascii!(r, r.usize(40)) };
+        let filler = ascii!(r, p - 8);
+        let msg = format!("{}{}{}", head, "\u{0}".repeat(8), filler);
+        let opts = IssueOpts { proto, layer: Layer::Core, key, footer: None, assertion: None, now, message: msg, json_payload: None, extra_claims: vec![] };
+        let t = issue(&mut rb, &mut r, opts);
+        let forged = rb.fault(t.msg, FaultKind::RotateMsgTailToFooter { p }, None);
+        // the verifier expects exactly the footer the forged token carries
+        let vfooter = format!("{}{}", filler, "\u{0}".repeat(8));
+        for vlayer in [Layer::Core, Layer::Generic, Layer::Batteries] {
+            let spec = VerifierSpec { proto, layer: vlayer, key, footer: Some(vfooter.clone()), assertion: None, default_validators: false, expect: vec![], expect_via_extend: false, validators: vec![], hash_seed: 0 };
+            let v = rb.verifier(spec);
+            rb.deliver(forged, v, now + 1000);
+        }
+    }
+    Some(rb.finish())
+}
+
 fn gen(ctx: &GenCtx, i: u64) -> Option<Run> {
     if i % 12 == 11 {
         return gen_long(ctx, i);
+    }
+    if i % 12 == 10 && (i / 12) % 4 == 0 {
+        return gen_crafted_resplit(ctx, i);
     }
     let mut r = run_rng(ctx, "C03", i);
     let proto = if i < 8 { ALL_PROTOS[i as usize] } else { weighted_proto(&mut r) };
